@@ -173,14 +173,14 @@ func c11(c *Ctx) {
 		}
 		acq := p.PlainCalls("litefs.(*DB).AcquireWriteLock")
 		tgt := func(in ssa.Instruction) bool { return in == s.in }
-		if len(Instrs(fn, acq)) == 0 && len(Instrs(fn, p.PlainCalls("litefs.(*DB).HoldsHaltLock"))) > 0 {
+		if len(Instrs(fn, acq)) == 0 && len(Instrs(fn, p.PlainCalls("litefs.(*DB).PinHaltLock"))) > 0 {
 			// the primary-side halt lock pins the write lock set on behalf of the remote holder
-			hold := GP("litefs.(*DB).HoldsHaltLock(@@)", true)
+			hold := G(pat("(litefs.(*DB).PinHaltLock(@@) == nil)")+"|"+pat("(nil == litefs.(*DB).PinHaltLock(@@))"), false)
 			sr := &Search{P: p, Fn: fn, Block: p.EdgesAsserting(hold), Tgt: tgt}
 			if f := sr.Run(); f != nil {
-				c.fail(key, "K9/K5 NoLock precondition", desc, why, fmt.Sprintf("call at %s reachable without the halt-lock holder check; path %s", c.where(s.in), p.TraceString(f.Trace)), 1)
+				c.fail(key, "K9/K5 NoLock precondition", desc, why, fmt.Sprintf("call at %s reachable without the pinned halt-lock holder check; path %s", c.where(s.in), p.TraceString(f.Trace)), 1)
 			} else {
-				c.ok(key, "K9/K5 NoLock precondition", desc+" (dominated by DB.HoldsHaltLock: the granted halt lock pins the write lock set on behalf of the caller)", 1)
+				c.ok(key, "K9/K5 NoLock precondition", desc+" (dominated by a non-nil DB.PinHaltLock: the granted halt lock holds the write lock set on behalf of the caller and cannot be released or expire before the handler returns, see C13 holder/pinned-until-return)", 1)
 			}
 			continue
 		}
